@@ -235,3 +235,51 @@ PROPERTY = PropertySpec(
     technique='contract-based deductive verification (pyvc + z3, loop invariant over a joint ghost pass history); bounded scripted linkers',
     design_ref='DESIGN.md section 10 / C08',
 )
+
+
+class LinkerInitBounded(BoundedCheck):
+    """BaseLinker construction: differing spans are rejected, lags/leads are maxima."""
+    name = 'c08.linker-init'
+    props = ('C08',)
+    bound_quick = 'pairs / triples of submodels whose spans are equal, differ in a label, differ in length (one a prefix of the other), differ in type; LAGS/LEADS in 0..2'
+    bound_thorough = bound_quick
+    required_covers = ('same', 'different', 'prefix')
+
+    def cases(self, tier, seed):
+        spans = {'a': list(range(5)), 'b': list(range(1, 6)), 'prefix': list(range(4)), 'longer': list(range(6)), 'str': ['a', 'b', 'c', 'd', 'e']}
+        for x in spans:
+            for y in spans:
+                for order in (0, 1):
+                    yield {'spans': [x, y] if order == 0 else [y, x], 'lags': [1, 2], 'leads': [2, 0]}
+        yield {'spans': ['a', 'a', 'prefix'], 'lags': [0, 1, 2], 'leads': [1, 1, 0]}
+
+    def check(self, case, res):
+        import fsic
+        from fsic.exceptions import InitialisationError
+        spans = {'a': list(range(5)), 'b': list(range(1, 6)), 'prefix': list(range(4)), 'longer': list(range(6)), 'str': ['a', 'b', 'c', 'd', 'e']}
+        out = []
+        subs = {}
+        for i, (sp, lg, ld) in enumerate(zip(case['spans'], case['lags'], case['leads'])):
+            cls = type(f'M{i}', (fsic.BaseModel,), {'LAGS': lg, 'LEADS': ld})
+            subs[f'm{i}'] = cls(list(spans[sp]))
+        same = all(spans[s] == spans[case['spans'][0]] for s in case['spans'])
+        res.nontrivial.add(repr(case))
+        res.cover('same' if same else 'different')
+        if not same and any(spans[a][:len(spans[b])] == spans[b] or spans[b][:len(spans[a])] == spans[a] for a in case['spans'] for b in case['spans'] if spans[a] != spans[b]):
+            res.cover('prefix')
+        try:
+            lk = fsic.BaseLinker(subs)
+            ok = True
+        except InitialisationError:
+            ok = False
+        if same and not ok:
+            out.append(Violation('submodels with identical spans are accepted', 'c08.init-rejects-equal-spans', case, 'linker', 'InitialisationError'))
+        if not same and ok:
+            out.append(Violation('submodels with differing spans are rejected at construction', 'c08.init-accepts-differing-spans', case, 'InitialisationError', 'linker',
+                                 'submodels_with_differing_spans_are_rejected'))
+        if same and ok and (lk.LAGS, lk.LEADS) != (max(case['lags']), max(case['leads'])):
+            out.append(Violation("the linker's lag/lead lengths are the maxima over its submodels", 'c08.init-lags-leads', case, (max(case['lags']), max(case['leads'])), (lk.LAGS, lk.LEADS)))
+        return out
+
+
+PROPERTY.bounded.append(LinkerInitBounded())
